@@ -20,7 +20,10 @@ from .. import lifetimes
 
 PID = 'C20'
 
-RENDERERS = ['HTML5', 'XHTML', 'Text', 'ManPage', 'DocBook']
+RENDERERS = ['HTML5', 'XHTML', 'Text', 'ManPage', 'DocBook', 'rend/SiteText']
+# 'rend/SiteText': a renderer given BY PATH (a package directory in the project, written by the harness): its configured
+# name - the key of its block in the label file - differs from its class and module names
+SITE_RENDERER = 'from plasTeX.Renderers.Text import TextRenderer\n\n\nclass Renderer(TextRenderer):\n    pass\n'
 
 META = {
     'level': 'fault_enumeration',
@@ -465,6 +468,9 @@ class Sim(object):
         self.pending_corrupt = {}      # file -> kind, until somebody reads it
         self._io = None
         os.makedirs(self.root)
+        os.makedirs(os.path.join(self.root, 'rend', 'SiteText'))
+        with open(os.path.join(self.root, 'rend', 'SiteText', '__init__.py'), 'w') as f:
+            f.write(SITE_RENDERER)
         for i in range(self.m):
             self.write_doc(i)
 
